@@ -273,6 +273,23 @@ theorem world_roundtrip (j : Job) (wf : j.WF)
   obtain ⟨en, hen, hres⟩ := restoreLeafG_ok j.cfg wf.chunk (wstore j) rd hrd order horder p l hl ws hws locs hlen hall
   exact ⟨en, by simp [worldEntry, hws, hlocs, hen], hres⟩
 
+/-- the same with an explicit restore target on the restoring rank (in place / allocate / mismatching target) -/
+theorem world_roundtrip_into (j : Job) (wf : j.WF)
+    (rd : Nat → List Nat → ULoc WLoc → Except Ts.Snapshot.Err Bytes)
+    (hrd : ∀ u bs es shape, UnitStored (wstore j) u bs → Ts.Chunk.numel shape * es = bs.length → rd es shape u = .ok bs)
+    (order : List ((Nat × Nat) × ULoc WLoc) → List ((Nat × Nat) × ULoc WLoc)) (horder : ∀ cs, (order cs).Perm cs)
+    (r : Nat) (st : RankState) (hr : j.states[r]? = some st) (p : PathId) (l : Leaf) (hpl : (p, l) ∈ st)
+    (dst : Option Ts.Serial.Tensor) (hdst : ∀ t, dst = some t → t.WF) :
+    ∃ en, worldEntry j r p l = .ok en ∧ restoreLeafInto (wstore j) rd order dst en = .ok l := by
+  have hst : st ∈ j.states := List.mem_of_getElem? hr
+  have hl := wf.leaves st hst (p, l) hpl
+  obtain ⟨ws, hws, _, _, _⟩ := leafWrites_facts j.cfg wf.chunk p l hl
+  obtain ⟨locs, hlocs, hlen, hall⟩ := mapE_ok_of (fun x => unitWLoc j r x.1.path) ws
+    (fun x u => UnitStored (wstore j) u x.2)
+    (fun x hx => unit_recorded j wf r st hr p l hpl ws hws x hx)
+  obtain ⟨en, hen, hres⟩ := restoreLeafInto_ok j.cfg wf.chunk (wstore j) rd hrd order horder p l hl ws hws locs hlen hall dst hdst
+  exact ⟨en, by simp [worldEntry, hws, hlocs, hen], hres⟩
+
 /-- The entry of a replicated leaf does not depend on the rank whose manifest it is read from: it is the one
 consolidated entry every restoring rank — including ranks beyond the saving world size — is given (C07). -/
 theorem worldEntry_rep_indep (j : Job) (p : PathId) (l : Leaf) (hrep : j.rep p = true) (hc : 1 ≤ j.cfg.chunk)
